@@ -40,6 +40,9 @@ type Ctx struct {
 	// is transpiled and processed completely while this case's request stands in the middle of its Process call; both requests go
 	// through logql_transpiler_v2.Transpile + chain[0].Process as QueryRangeService does (overlap.go). The statement must not depend on it.
 	Overlap *[2]int64 `json:"overlap,omitempty"`
+	// NoCHFinalize (C07 round 8): the PlannerContext is built WITHOUT the flag CHFinalize (its zero value): MainFinalizerPlanner
+	// returns the select under the outermost one. Default false = the flag is set, as the reader's services do.
+	NoCHFinalize bool `json:"no_ch_finalize,omitempty"`
 }
 
 type Case struct {
@@ -244,7 +247,7 @@ func dumpStrSel(y coqx.Syn, s *logql_parser.StrSelector) string {
 
 func dumpCtx(y coqx.Syn, c Ctx, pc *shared.PlannerContext) string {
 	return y.Rec("c_from_ns", y.Z(c.FromNs), "c_to_ns", y.Z(c.ToNs), "c_limit", y.Z(c.Limit), "c_asc", y.Bool(c.Asc),
-		"c_cluster", y.Bool(c.Cluster), "c_type", y.Z(int64(c.Type)), "c_finalize", "true", "c_step_ns", y.Z(c.StepMs*1000000),
+		"c_cluster", y.Bool(c.Cluster), "c_type", y.Z(int64(c.Type)), "c_finalize", y.Bool(!c.NoCHFinalize), "c_step_ns", y.Z(c.StepMs*1000000),
 		"t_gin", y.Str(pc.TimeSeriesGinTableName), "t_samples", y.Str(pc.SamplesTableName), "t_ts", y.Str(pc.TimeSeriesTableName),
 		"t_ts_dist", y.Str(pc.TimeSeriesDistTableName), "t_m15", y.Str(pc.Metrics15sTableName))
 }
@@ -333,7 +336,7 @@ func mkCtx(c Ctx) *shared.PlannerContext {
 		To:         time.Unix(0, c.ToNs),
 		OrderASC:   c.Asc,
 		Limit:      c.Limit,
-		CHFinalize: true,
+		CHFinalize: !c.NoCHFinalize,
 		Step:       time.Duration(c.StepMs) * time.Millisecond,
 		Type:       c.Type,
 	}
